@@ -53,5 +53,5 @@ MCCuts(st) == {NoCut}
 
 Treats == {<< Op("RM") >>, << Op("NR") >>, << Op("NR"), Rd(1) >>, << Op("NR"), Op("RF") >>, << Op("NR"), Op("RA") >>}
 MCProgs(st) == {p \o << Op("RM") >> : p \in Concats(Treats, NumData(st))}
-               \cup {<< Swd(-1) >> \o p \o << Op("RM") >> : p \in Concats({<< Op("RM") >>, << Op("NR"), Op("RA") >>}, NumData(st))}
+               \cup {<< x >> \o p \o << Op("RM") >> : x \in {Swd(-1), Op("WCP")}, p \in Concats({<< Op("RM") >>, << Op("NR"), Op("RA") >>}, NumData(st))}
 =============================================================================
